@@ -452,10 +452,17 @@ static Type *declspec(Token **rest, Token *tok, VarAttr *attr) {
         error_tok(tok, "_Alignas is not allowed in this context");
       tok = skip(tok->next, "(");
 
-      if (is_typename(tok))
+      if (is_typename(tok)) {
         attr->align = typename(&tok, tok)->align;
-      else
-        attr->align = const_expr(&tok, tok);
+      } else {
+        Token *start = tok;
+        int64_t val = const_expr(&tok, tok);
+        // C11 6.7.5p3: zero (no effect) or a valid alignment, which is
+        // a power of two; the object format limits it to 2^28.
+        if (val < 0 || val > (1 << 28) || (val & (val - 1)))
+          error_tok(start, "requested alignment is not a power of 2 between 1 and 2^28");
+        attr->align = val;
+      }
       tok = skip(tok, ")");
       continue;
     }
